@@ -267,8 +267,9 @@ def _benign_act(rng, cfg, depth, steps):
         inner = [_benign_act(rng, cfg, 1, steps) for _ in range(rng.randint(1, 3))]
         if rng.random() < 0.35:
             inner.insert(0, {"a": "gate"})
-        # TODO(after the D11 repair is merged): also hold a thread between two of its own acts
-        #   if rng.random() < 0.3: inner.insert(rng.randint(1, len(inner)), {"a": "gate"})
+        if rng.random() < 0.3:
+            # held between two of its own acts: lets threads of other tests emit in between
+            inner.insert(rng.randint(1, len(inner)), {"a": "gate"})
         act = {"a": "thread", "script": inner}
         if rng.random() < 0.4:
             # an explicit thread name, the same in several tests (names say nothing about identity)
